@@ -56,8 +56,10 @@ def quiet_logging(ex, st, callee, args, dty):
     return NotImplemented
 
 
-def atomic_hook(cells):
-    """model Atomic<T> statics as store cells. `cells` maps the static's type string (e.g. 'Atomic<i32>') to a name."""
+def atomic_hook(cells, fresh_loads=False):
+    """model Atomic<T> statics as store cells. `cells` maps the static's type string (e.g. 'Atomic<i32>') to a name.
+    fresh_loads: every read returns a fresh symbol (recorded in the event) - the value is fixed later by an interleaving
+    encoding instead of by this thread's own earlier writes."""
     def h(ex, st, callee, args, dty):
         c = canon(callee)
         m = re.fullmatch(r"(?:std::sync::atomic::|core::sync::atomic::)?Atomic(?:I32|U32|Usize|Bool|<\w+>)?::(load|store|fetch_add|fetch_max|fetch_min|fetch_or|fetch_and|swap|compare_exchange|fetch_update|compare_exchange_weak|fetch_sub)", c)
@@ -80,6 +82,8 @@ def atomic_hook(cells):
             cur = z3.BitVec(f"{name}_init", bits)
             st.aux[("atomic", name)] = cur
             st.aux.setdefault("atomic_init", {})
+        if fresh_loads and op != "store":
+            cur = z3.BitVec(f"rd_{name}_{next(ex.oid_counter)}", bits)
         ev = None
         if op == "load":
             res = Sym(cur, ty)
@@ -97,12 +101,12 @@ def atomic_hook(cells):
                    "fetch_or": cur | x, "fetch_and": cur & x, "swap": x}[op]
             st.aux[("atomic", name)] = new
             res = Sym(cur, ty)
-            ev = ("rmw", name, op, x)
+            ev = ("rmw", name, op, x, cur, new)
         elif op in ("compare_exchange", "compare_exchange_weak"):
             exp, new = args[1].t, args[2].t
             ok = cur == exp
             st.aux[("atomic", name)] = z3.If(ok, new, cur)
-            ev = ("cas", name, exp, new)
+            ev = ("rmw", name, "cas", exp, cur, z3.If(ok, new, cur))
             # Result<T,T>: fork
             st.trace.append(("atomic", ev))
             return [(ok, Agg(dty, "Ok", [Sym(cur, ty)])), (z3.Not(ok), Agg(dty, "Err", [Sym(cur, ty)]))]
